@@ -4,7 +4,9 @@
    A source text is a sequence of integers: c >= 0 is the Unicode code point c (UTF-8 encoded by the
    harness), c < 0 is the raw byte -c, used to build invalid UTF-8 (only bytes that can never be part
    of a valid sequence: 0x80, 0xC0, 0xFF).  The lexer sees *runes with byte widths* <<cp, width>>:
-   an invalid byte decodes to <<65533, 1>>, the genuine U+FFFD to <<65533, 3>>.
+   an invalid byte decodes to <<65533, 1>>, the genuine U+FFFD to <<65533, 3>> (a third component keeps
+   the original element, because token values are substrings of the source: an invalid byte stays itself
+   in a raw string, and becomes U+FFFD only where encoding/json decodes the text).
 
    LexFrom mirrors the if-chain of tokenize() branch by branch; the sub-scanners (consumeUntil,
    consumeRawStringLiteral with its chunk buffer, matchOrElse, consumeLBracket, identifier and number
@@ -18,7 +20,7 @@
 EXTENDS Unparse
 
 Utf8Len(c) == IF c < 128 THEN 1 ELSE IF c < 2048 THEN 2 ELSE IF c < 65536 THEN 3 ELSE 4
-DecodeSrc(text) == [i \in 1..Len(text) |-> IF text[i] < 0 THEN <<65533, 1>> ELSE <<text[i], Utf8Len(text[i])>>]
+DecodeSrc(text) == [i \in 1..Len(text) |-> IF text[i] < 0 THEN <<65533, 1, text[i]>> ELSE <<text[i], Utf8Len(text[i]), text[i]>>]
 RECURSIVE ByteLen(_)
 ByteLen(cs) == IF cs = <<>> THEN 0 ELSE Utf8Len(cs[1]) + ByteLen(Tail(cs))
 
@@ -26,7 +28,8 @@ RECURSIVE Off(_, _)
 Off(src, k) == IF k = 0 THEN 0 ELSE Off(src, k - 1) + src[k][2]
 NRunes(src) == Len(src)
 CP(src, k) == src[k][1]
-CpsOf(src, a, b) == [i \in 1..(b - a + 1) |-> src[a + i - 1][1]]
+(* the substring of runes a..b as it is copied into a token value: an invalid byte stays that byte *)
+CpsOf(src, a, b) == [i \in 1..(b - a + 1) |-> src[a + i - 1][3]]
 (* byte length of runes a..b of the source (token values are substrings: invalid bytes keep width 1) *)
 RECURSIVE SrcBytes(_, _, _)
 SrcBytes(src, a, b) == IF a > b THEN 0 ELSE src[a][2] + SrcBytes(src, a + 1, b)
@@ -54,7 +57,7 @@ HexVal(c) == IF IsDigit(c) THEN c - 48 ELSE IF c \in 65..70 THEN c - 55 ELSE IF 
 RECURSIVE JsonUnescape(_)
 JsonUnescape(s) ==
   IF s = <<>> THEN <<"ok", <<>>>>
-  ELSE LET c == s[1] IN
+  ELSE LET c == IF s[1] < 0 THEN 65533 ELSE s[1] IN      \* encoding/json replaces invalid UTF-8 by U+FFFD
     IF c < 32 THEN <<"bad">>
     ELSE IF c # 92 THEN (LET r == JsonUnescape(Tail(s)) IN IF r[1] = "ok" THEN <<"ok", <<c>> \o r[2]>> ELSE r)
     ELSE IF Len(s) < 2 THEN <<"bad">>
@@ -125,13 +128,13 @@ LexFrom(src, k, toks) ==
        LET r == IF k1 >= NRunes(src) THEN RawLoop(src, k1, -1, 0, k1, <<>>)
                 ELSE RawLoop(src, k1 + 1, CP(src, k1 + 1), src[k1 + 1][2], k1, <<>>) IN
        IF r[1] = "unclosed" THEN SynErr(Off(src, NRunes(src)))
-       ELSE LexFrom(src, r[2], Append(toks, LTok("strlit", r[3], Off(src, k1), SrcBytes(src, k1 + 1, r[2] - 1) - (Len(CpsOf(src, k1 + 1, r[2] - 1)) - Len(r[3])))))
+       ELSE LexFrom(src, r[2], Append(toks, LTok("strlit", r[3], Off(src, k1), ByteLen(r[3]))))
   ELSE IF c = 96 THEN
        LET u == Until(src, k1, 96) IN
        IF u[1] = "unclosed" THEN SynErr(Off(src, NRunes(src)))
        ELSE LET raw == CpsOf(src, k1 + 1, u[2] - 1)
                 v == UnescapeBacktick(raw) IN
-            LexFrom(src, u[2], Append(toks, LTok("jsonlit", v, Off(src, k1), SrcBytes(src, k1 + 1, u[2] - 1) - (Len(raw) - Len(v)))))
+            LexFrom(src, u[2], Append(toks, LTok("jsonlit", v, Off(src, k1), ByteLen(v))))
   ELSE IF c = 124 THEN LET t == Two(src, k1, 124, "or", "pipe") IN LexFrom(src, t[2], Append(toks, t[1]))
   ELSE IF c = 60 THEN LET t == Two(src, k1, 61, "lte", "lt") IN LexFrom(src, t[2], Append(toks, t[1]))
   ELSE IF c = 62 THEN LET t == Two(src, k1, 61, "gte", "gt") IN LexFrom(src, t[2], Append(toks, t[1]))
